@@ -42,7 +42,7 @@ STAT = [100, 101, 199, 200, 201, 204, 205, 206, 301, 302, 304, 400, 404, 500, 59
         "200 OK", "204 NO CONTENT", "304 whatever", "404 NOT FOUND", "299 custom reason"]
 METHODS = ["GET", "HEAD", "POST"]
 CLS = [None, "correct", "wrong"]
-LOCS = [None, "/rel?x=1", "http://é.example/pä th?q=ü", "//other/p"]
+LOCS = [None, "/rel?x=1", "http://é.example/pä th?q=ü", "//other/p", "test", "../x?q=ü"]
 
 
 def shards(tier, seed):
@@ -135,7 +135,8 @@ def check_cell(rec, W, cell):
     Response, create_environ = W.Response, W.create_environ
     case = {"cell": [kind, str(status) if not isinstance(status, (int, str)) else status, method, cl, loc, auto, ncb, inspect], "status_repr": repr(status)}
     body, expected, spies = mkbody(kind, W)
-    env = create_environ(method=method)
+    # the request URL itself is non-ASCII: an autocorrected relative Location is joined onto it
+    env = create_environ("/k\xe4se/b/c", base_url="http://example.org/r\xf6ot/", method=method)
     if kind == "wrapfile":
         env["wsgi.file_wrapper"] = ServerFileWrapper
         body = W.wrap_file(env, body, 2)
